@@ -7,6 +7,7 @@ Every type T gets two readings:  upper ⊇ (every reasonable reading of the sche
 For almost all types upper == lower; they differ for xs:date (pattern-only vs. calendar-aware),
 xs:language (1st vs 2nd edition pattern), xs:anyURI.
 """
+import itertools
 import re
 from decimal import Decimal, InvalidOperation
 from fractions import Fraction
@@ -17,6 +18,7 @@ from . import rx
 F64 = z3.Float64()
 RNE = z3.RNE()
 
+FIXED_CANDIDATES = ('en', 'de-CH', 'A', 'a1', '1', '#000000', '#40800080', '2000-01-01', '1999-12-31', 'x', 'accidentalSharp', 'coda', 'lyricsElision', 'pictA', 'segno', 'wiggleA', 'Arial', '1, 2', '3')
 DATE_LOOSE = r'-?[0-9]{4,}-[0-9]{2}-[0-9]{2}(Z|[+\-][0-9]{2}:[0-9]{2})?'
 DATE_STRICT = r'-?([1-9][0-9]{3,}|0[0-9]{3})-(0[1-9]|1[0-2])-(0[1-9]|1[0-9]|2[0-8])(Z|[+\-](0[0-9]|1[0-3]):[0-5][0-9])?'
 LANG_1 = r'([a-zA-Z]{2}|[iI]-[a-zA-Z]+|[xX]-[a-zA-Z]{1,8})(-[a-zA-Z]{1,8})*'
@@ -28,6 +30,52 @@ INTEGER_LEX = r'[+\-]?[0-9]+'
 def _and(rs):
     rs = list(rs)
     return rs[0] if len(rs) == 1 else z3.Intersect(*rs)
+
+
+def canonical_str(s, var, sigma=None):
+    """canonical model of a satisfiable solver state for a string variable: shortest, then least characters position by
+    position (alphanumerics first): sample values must not depend on which model z3 happens to return"""
+    from .lang import unescape
+    sigma = sigma or rx.SIGMA
+    L = None
+    for n in range(0, 40):
+        s.push()
+        s.add(z3.Length(var) == n)
+        if str(s.check()) == 'sat':
+            L = n
+            break
+        s.pop()
+    if L is None:
+        return unescape(s.model().eval(var, model_completion=True).as_string())
+    out = ''
+    order = sorted(sigma, key=lambda c: (not (c.isascii() and c.isalnum()), c))
+    for i in range(L):
+        m = unescape(s.model().eval(var, model_completion=True).as_string())
+        chosen = m[i]
+        for ch in order:
+            if ch == chosen:
+                break
+            s.push()
+            s.add(z3.SubString(var, i, 1) == z3.StringVal(ch))
+            ok = str(s.check()) == 'sat'
+            s.pop()
+            if ok:
+                chosen = ch
+                break
+        s.push()
+        s.add(z3.SubString(var, i, 1) == z3.StringVal(chosen))
+        if str(s.check()) != 'sat':
+            # solver gave up (timeout) on the narrowed query: keep the last full model, which satisfies everything asked
+            s.pop()
+            s.pop()
+            for _ in range(i):
+                s.pop()
+            return m
+        out += chosen
+    for _ in range(L):
+        s.pop()
+    s.pop()
+    return out
 
 
 def normalised_re(ws, sigma=None):
@@ -217,18 +265,37 @@ class Lex:
             for a in avoid:
                 if isinstance(a, int):
                     s.add(n != a)
-            # prefer small positive
-            s.push()
-            s.add(n >= 1, n <= 9)
+            # the valid value closest to zero, positive preferred (canonical: independent of z3's model choice)
             if str(s.check()) != 'sat':
+                return None
+            for cand in itertools.chain.from_iterable((k, -k) for k in range(1, 2000)):
+                s.push()
+                s.add(n == cand)
+                ok = str(s.check()) == 'sat'
                 s.pop()
-                if str(s.check()) != 'sat':
-                    return None
+                if ok:
+                    return cand
+            s.push()
+            s.add(n == 0)
+            ok = str(s.check()) == 'sat'
+            s.pop()
+            if ok:
+                return 0
+            o = z3.Optimize()
+            o.add(self.int_ok(n, upper=False), n >= 0)
+            o.minimize(n)
+            if str(o.check()) == 'sat':
+                return o.model().eval(n, model_completion=True).as_long()
             return s.model().eval(n, model_completion=True).as_long()
         if self.T.get('enums'):
             for lit in self.T['enums']:
                 if lit not in avoid:
                     return lit
+        if self.T.get('patterns') or self.kind == 'date':
+            # fixed candidates first: deterministic and fast; z3 only when none of them is in the lexical space
+            for cand in FIXED_CANDIDATES:
+                if cand not in avoid and self.valid_text(cand, upper=False) and self.collapse(cand) == cand:
+                    return cand
         v = z3.String('v')
         s.set('timeout', 5000)
         nonempty = self.kind != 'string' or bool(self.T.get('patterns')) or bool(self.T.get('enums'))
@@ -246,7 +313,9 @@ class Lex:
             s.add(*extra)
             r = str(s.check())
             if r == 'sat':
-                return unescape(s.model().eval(v, model_completion=True).as_string())
+                val = canonical_str(s, v, self.sigma)
+                s.pop()
+                return val
             s.pop()
         for cand in ('2000-01-01', 'a', 'en', '1', '#000000', 'A1', 'x', ''):
             if cand not in avoid and self.valid_text(cand, upper=False) and self.collapse(cand) == cand:
